@@ -96,6 +96,7 @@ func alphabetIDs() []m.Op {
 		ins("a", m.Doc{"_id": int64(5), "v": int64(21)}),
 		ins("a", doc(u3, "v", int64(22)), m.Doc{"_id": "zz", "v": int64(22)}),
 		ins("a", doc(u3, "_expiresAt", "soon")),
+		ins("a", doc(u3, "_expiresAt", time.Date(2099, 1, 1, 0, 0, 0, 0, time.UTC), "v", int64(23))),
 		m.Op{K: "createIndex", Coll: "a", Field: "v"},
 	)
 	return out
